@@ -1210,7 +1210,14 @@ class CallMixin(object):
         if name == 'int':
             a = d[0]
             if isinstance(a, Sc) and a.py == 'int': return [(a, st)]
-            if isinstance(a, Sc) and a.py == 'float': return [(Sc(trunc(a.z), 'int'), st)]
+            if isinstance(a, Sc) and a.py == 'float':
+                if not z3.is_const(a.z) and not z3.is_rational_value(z3.simplify(a.z)):
+                    # int() of a computed float: the integer must not depend on the last-bit rounding of the
+                    # computation (A1 is NOT assumed here): trunc(x(1+d)) == trunc(x) for |d| <= 2^-52
+                    d = fresh(RealS, 'ulp')
+                    eps = z3.RealVal(1) / z3.RealVal(2 ** 52)
+                    self.obl('float-int-robust', st, trunc(a.z * (1 + d)) == trunc(a.z), extra_h=[d >= -eps, d <= eps])
+                return [(Sc(trunc(a.z), 'int'), st)]
             raise Unsupported('int(%r)' % (a,))
         if name == 'len':
             a = d[0]
